@@ -187,7 +187,7 @@ fn top_writable(l: &Layout, c: &Cells) -> Option<usize> {
 /// C12 free history / C11 twin history. `twin` adds Restart and Build operations.
 pub fn gen_history(rng: &mut Rng, l: &Layout, maxlen: usize, twin: bool, has_builder: bool) -> Case {
     let c = cells(l);
-    let nslots = 1 + rng.weighted(&[50, 30, 20]);
+    let nslots = 1 + rng.weighted(&[46, 28, 17, 5, 4]);
     let mut ops: Vec<Op> = (0..nslots).map(|s| gen_init(rng, l, s)).collect();
     let len = gen_len(rng, maxlen);
     let top = top_writable(l, &c);
